@@ -113,6 +113,7 @@ func normalisedOperand(L *Loaded, fi *FuncInfo, e ast.Expr, depth int) (bool, st
 		// all assignments to obj in this function
 		type asg struct {
 			pos   token.Pos
+			end   token.Pos
 			rhs   ast.Expr
 			block *ast.BlockStmt
 		}
@@ -163,7 +164,7 @@ func normalisedOperand(L *Loaded, fi *FuncInfo, e ast.Expr, depth int) (bool, st
 								}
 							}
 						}
-						asgs = append(asgs, asg{s.Pos(), rhs, b})
+						asgs = append(asgs, asg{s.Pos(), s.End(), rhs, b})
 					}
 				}
 			case *ast.ValueSpec:
@@ -173,13 +174,13 @@ func normalisedOperand(L *Loaded, fi *FuncInfo, e ast.Expr, depth int) (bool, st
 						if i < len(s.Values) {
 							rhs = s.Values[i]
 						}
-						asgs = append(asgs, asg{s.Pos(), rhs, encl()})
+						asgs = append(asgs, asg{s.Pos(), s.End(), rhs, encl()})
 					}
 				}
 			case *ast.RangeStmt:
 				for _, l := range []ast.Expr{s.Key, s.Value} {
 					if id, ok := l.(*ast.Ident); ok && (info.Defs[id] == obj || info.Uses[id] == obj) {
-						asgs = append(asgs, asg{s.Pos(), nil, s.Body})
+						asgs = append(asgs, asg{s.Pos(), s.Body.Pos(), nil, s.Body})
 					}
 				}
 			}
@@ -188,7 +189,7 @@ func normalisedOperand(L *Loaded, fi *FuncInfo, e ast.Expr, depth int) (bool, st
 		sort.Slice(asgs, func(i, j int) bool { return asgs[i].pos < asgs[j].pos })
 		var last *asg
 		for i := range asgs {
-			if asgs[i].pos < x.Pos() {
+			if asgs[i].end <= x.Pos() || (asgs[i].rhs == nil && asgs[i].pos < x.Pos()) {
 				last = &asgs[i]
 			}
 		}
